@@ -97,6 +97,20 @@ func (p *peer) disableFSM(i int) {
 	p.fsmState[i] = disabledState
 }
 
+// disableOtherFSM disables the FSM other than i in favor of FSM i. If the other
+// FSM was about to report an error when it was disabled, that error is
+// handled as if it had been reported first; it may require damping the peer,
+// which disables FSM i as well. disableOtherFSM reports whether FSM i is still
+// enabled.
+func (p *peer) disableOtherFSM(i int) bool {
+	o := p.fsms[other(i)]
+	p.disableFSM(other(i))
+	if o != nil && o.unreportedErr != nil {
+		p.handleError(other(i), o.unreportedErr)
+	}
+	return p.fsms[i] != nil
+}
+
 func (p *peer) sendTransitionToFSM(i int, t stateTransition) {
 	select {
 	case <-p.closeCh:
@@ -122,8 +136,9 @@ func (p *peer) handleStateTransition(i int, t stateTransition) {
 	switch {
 	case t.to == establishedState:
 		// disable the other fsm
-		p.disableFSM(other(i))
-		p.sendTransitionToFSM(i, t)
+		if p.disableOtherFSM(i) {
+			p.sendTransitionToFSM(i, t)
+		}
 	case i == in && t.to < t.from:
 		// in going down, disable it and make sure out is enabled
 		p.disableFSM(i)
@@ -162,8 +177,10 @@ func (p *peer) handleStateTransition(i int, t stateTransition) {
 				case p.fsms[other(i)].closeCh <- struct{}{}:
 					// we send an empty struct rather than close the channel in
 					// case we lose on the select race in fsm.openConfirm()
-					p.disableFSM(other(i)) // wait for it to stop completely
-					p.sendTransitionToFSM(i, t)
+					// wait for it to stop completely
+					if p.disableOtherFSM(i) {
+						p.sendTransitionToFSM(i, t)
+					}
 				case otherT := <-p.transitionCh[other(i)]:
 					// other FSM transitioned before we could disable it
 					if otherT.to == establishedState {
